@@ -71,8 +71,9 @@ CHECKS = {
         'engine': 'seqx',
         'technique': 'exhaustive product enumeration store states x user names x passwords x frontends with store.Dir.Authenticate as reference verdict',
         'text': 'Every credential pair of the alphabet (transport-special bytes, boundary lengths, near misses) is submitted through each frontend (real saslauthd socket + bundled client, basic-auth, API authenticate, LDAP bind handler, built binary) and compared with the library verdict on the same directory; records that make the store fail internally must be denied everywhere.',
-        'note': 'LDAP below the bind handler (BER parsing in the glauth library) and TLS listeners are not enumerated.',
-        'parts': [RwTest('frontends', 'cmd/whawty-auth', ['harness/agentseq'], AGENT_SEQ, '^TestC04$', agent=True)],
+        'note': 'TLS listeners and systemd socket activation are not driven; the LDAP BER layer is exercised by the end-to-end part (glauth client against the built binary).',
+        'parts': [RwTest('frontends', 'cmd/whawty-auth', ['harness/agentseq'], AGENT_SEQ, '^TestC04$', agent=True),
+                  GoBin('e2e', 'harness/e2e', agent=True, env={'VERIF_E2E_PROP': 'C04'})],
     },
     'C17': {
         'level': 'exploration',
@@ -138,7 +139,8 @@ CHECKS = {
         'technique': 'exhaustive single-fault injection (every occurrence of every file-system system call of every mutating operation x errnos) via ptrace; trace replay of read-only and failing calls in the FS model; exhaustive aux-data x operation product',
         'text': 'Every system call of init/add/update/set-admin/remove is made to fail once with each applicable errno; an operation that reports failure must leave everything outside the work area byte-identical. Read-only and semantically failing calls are traced and must issue no mutating system call. Auxiliary data of every shape survives update / set-admin byte-for-byte, all other files untouched.',
         'note': 'One fault per run; library level (the frontends only add authenticate calls, see C04).',
-        'parts': [TracePart('faults', 'c15_faults'), TracePart('readonly', 'c15_readonly'), GoBin('auxdata', 'harness/c15')],
+        'parts': [TracePart('faults', 'c15_faults'), TracePart('readonly', 'c15_readonly'), GoBin('auxdata', 'harness/c15'),
+                  GoBin('e2etrace', 'harness/e2e', agent=True, env={'VERIF_E2E_PROP': 'C15', 'VERIF_E2E_TRACE': '1'})],
     },
     'C12': {
         'level': 'model_checking',
